@@ -569,7 +569,7 @@ package table
 //@   at-call path.GetLocalKey() requires bgp.IsAddPathEnabled(false, path.GetFamily(), options)
 
 // the same for AGGREGATOR: once its AS is held as a 4-octet number the attribute is 8 octets long
-//@ props C11
+//@ props C11 C14
 //@ spec wfAgg(a bgp.PathAttributeInterface) bool = typeOf(a) == (*bgp.PathAttributeAggregator) && a.(*bgp.PathAttributeAggregator) != nil && a.(*bgp.PathAttributeAggregator).Value.Askind == reflect.Uint32 ==> a.(*bgp.PathAttributeAggregator).Length == 8
 //@ func UpdatePathAggregator4ByteAs
 //@   address-quant
@@ -580,6 +580,9 @@ package table
 //@   loop 0 invariant forall k int :: 0 <= k && k < len(msg.PathAttributes) ==> wfAgg(msg.PathAttributes[k])
 //@   loop 0 invariant aggAttr != nil ==> aggAttr.Value.Askind == reflect.Uint32 && aggAttr.Length == 8
 //@   at-return requires aggAttr != nil ==> aggAttr.Value.Askind == reflect.Uint32 && aggAttr.Length == 8
+// from C14 (RFC 6793 4.2.3): AS4_AGGREGATOR stands in for an AGGREGATOR that carries AS_TRANS; an AGGREGATOR with a
+// real AS number is left as received
+//@   at-return requires aggAttr != nil && agg4Attr != nil && old(aggAttr.Value.AS) != bgp.AS_TRANS ==> aggAttr.Value.AS == old(aggAttr.Value.AS)
 
 // =============================================================================================
 // C14 — the 2-octet/4-octet AS transition: reconstruction from AS_PATH + AS4_PATH
